@@ -1,6 +1,7 @@
 package main
 
 import (
+	"sync/atomic"
 	"bufio"
 	"bytes"
 	"context"
@@ -386,6 +387,35 @@ func init() {
 					}
 					o.Count("pair:diff")
 					return "diff"
+				case "keycrowd": // goroutines perGoroutine : many requests keyed AT THE SAME MOMENT: the key of a request depends on that request alone
+					g, _ := strconv.Atoi(f[1])
+					per, _ := strconv.Atoi(f[2])
+					reqs := make([]*http.Request, 64)
+					ref := make([]string, 64)
+					for i := range reqs {
+						reqs[i] = mkReq(false, "GET", "crowd.example", fmt.Sprintf("/items/%04d", i), fmt.Sprintf("rev=%04d", 9999-i))
+						ref[i] = cache.MakeFromRequest(reqs[i]).Hex
+					}
+					var wrong int64
+					var wg sync.WaitGroup
+					for w := 0; w < g; w++ {
+						wg.Add(1)
+						go func(w int) {
+							defer wg.Done()
+							for j := 0; j < per; j++ {
+								i := (w*31 + j*7) % 64
+								if cache.MakeFromRequest(reqs[i]).Hex != ref[i] {
+									atomic.AddInt64(&wrong, 1)
+								}
+							}
+						}(w)
+					}
+					wg.Wait()
+					o.Count("keycrowd")
+					if wrong == 0 {
+						return "all-keys-their-own"
+					}
+					return fmt.Sprintf("%d of %d concurrently computed keys differ from the key of the same request computed alone", wrong, g*per)
 				case "clean":
 					o.Count("clean")
 					return hx(path.Clean(unhx(f[1])))
@@ -412,6 +442,7 @@ func init() {
 				}
 			}
 			rec(nil, 0)
+			emit("keycrowd", "16", "40000")
 			// 2. requests parsed from wire bytes by net/http
 			wire := func(method, target, host string) (m, h, p, q string, ok bool) {
 				raw := method + " " + target + " HTTP/1.1\r\nHost: " + host + "\r\n\r\n"
